@@ -103,7 +103,7 @@ func newCaseFile(path string, imports []string, typ string) (*caseFile, error) {
 		return nil, err
 	}
 	w := bufio.NewWriterSize(f, 1<<20)
-	fmt.Fprintln(w, "From Coq Require Import List NArith ZArith Bool.")
+	fmt.Fprintln(w, "From Coq Require Import List NArith ZArith Bool Uint63.")
 	fmt.Fprintf(w, "From Semadb Require Import %s.\n", strings.Join(imports, " "))
 	fmt.Fprintln(w, "Import ListNotations.\nOpen Scope N_scope.")
 	return &caseFile{f: f, w: w, typ: typ}, nil
